@@ -205,9 +205,18 @@ Proof.
 Qed.
 
 (* stage 2: the operation advance *)
+(* the saturating fit test decides the exact (unbounded) inequality *)
+Lemma sat_fit s a b : (sat_add64 s (sat_mul64 a b) <=? 255)%N = (s + a * b <=? 255)%N.
+Proof.
+  unfold sat_add64, sat_mul64, two64.
+  destruct (N.leb_spec (s + a * b) 255); destruct (N.leb_spec (N.min (s + N.min (a * b) (18446744073709551616 - 1)) (18446744073709551616 - 1)) 255); try reflexivity; lia.
+Qed.
+
+Lemma sat_mul_small a b : (a * b <= 255)%N -> sat_mul64 a b = (a * b)%N.
+Proof. intros H. unfold sat_mul64, two64. lia. Qed.
+
 Lemma op_stage_ok dbg l special use oadv : enc_ok l ->
   (13 <= special)%N -> (special - 13 < le_line_range l)%N ->
-  (oadv * le_line_range l + le_line_range l + 12 < 18446744073709551616)%N ->
   exists special' use' mid k,
     adv_op_stage dbg l special use oadv = Ok (special', use', mid) /\
     special' = (special + k * le_line_range l)%N /\ (k <= oadv)%N /\
@@ -217,7 +226,7 @@ Lemma op_stage_ok dbg l special use oadv : enc_ok l ->
     (forall ver r, regs_ok (params_of l) r ->
        run (params_of l) (map (denote ver) mid) r = ([], op_adv (params_of l) (Z.of_N (oadv - k)) r)).
 Proof.
-  intros Hok H13 Hsl Hrange. destruct Hok as (Hb & Hr & Hr255 & Hmin & Hmax).
+  intros Hok H13 Hsl. destruct Hok as (Hb & Hr & Hr255 & Hmin & Hmax).
   set (lr := le_line_range l) in *.
   assert (Hlr : (1 <= lr)%N) by lia.
   assert (Hmaxz : (0 < lp_max_ops (params_of l))%Z) by (cbn; lia).
@@ -226,12 +235,12 @@ Proof.
   - (* no operation advance *)
     exists special, use, [], 0%N. subst oadv. repeat split; try lia; auto.
     intros ver r Hr0. cbn [map run]. now rewrite op_adv_0.
-  - rewrite chk_mul64_ok by lia. cbn [bind].
-    rewrite chk_add64_ok by lia. cbn [bind].
+  - rewrite sat_fit.
     destruct (N.leb_spec (special + oadv * lr) 255) as [Hle|Hgt]; cbn [bind].
     + (* folded into the special opcode *)
-      rewrite chk_mul64_ok by lia. cbn [bind]. rewrite chk_add64_ok by lia. cbn [bind].
+      rewrite sat_fit.
       destruct (N.leb_spec (special + oadv * lr) 255) as [_|Hc]; [|lia].
+      rewrite sat_mul_small by lia. rewrite chk_add64_ok by lia. cbn [bind].
       exists (special + oadv * lr)%N, true, [], oadv. repeat split; try lia; auto; try discriminate.
       intros ver r Hr0. cbn [map run]. rewrite N.sub_diag. now rewrite op_adv_0.
     + destruct (N.eqb_spec lr 0) as [Hz|_]; [lia|].
@@ -239,10 +248,10 @@ Proof.
       pose proof (op_range_le special oadv lr Hlr ltac:(lia) Hgt) as Hq.
       rewrite chk_sub64_ok by exact Hq. cbn [bind].
       set (q := (242 / lr)%N) in *.
-      assert (Hd : ((oadv - q) * lr <= oadv * lr)%N) by (apply N.mul_le_mono_r; lia).
-      rewrite chk_mul64_ok by lia. cbn [bind]. rewrite chk_add64_ok by lia. cbn [bind].
+      rewrite sat_fit.
       destruct (N.leb_spec (special + (oadv - q) * lr) 255) as [Hle2|Hgt2].
       * (* DW_LNS_const_add_pc + special opcode *)
+        rewrite sat_mul_small by lia. rewrite chk_add64_ok by lia. cbn [bind].
         exists (special + (oadv - q) * lr)%N, true, [IConstAddPc], (oadv - q)%N.
         repeat split; try lia; auto; try discriminate.
         -- repeat constructor.
@@ -268,7 +277,6 @@ Proof. intros H. unfold wrap8. apply N.mod_small. lia. Qed.
 
 Lemma advance_correct dbg l ladv oadv :
   enc_ok l -> i64 ladv ->
-  (oadv * le_line_range l + le_line_range l + 12 < 18446744073709551616)%N ->
   exists insns,
     advance_insns dbg l ladv oadv = Ok insns /\
     Forall special_ok insns /\
@@ -277,10 +285,10 @@ Lemma advance_correct dbg l ladv oadv :
       ([op_adv (params_of l) (Z.of_N oadv) (line_adv ladv r)],
        after_row (params_of l) (op_adv (params_of l) (Z.of_N oadv) (line_adv ladv r))).
 Proof.
-  intros Hok Hl Hov.
+  intros Hok Hl.
   pose proof (special_default_val l Hok) as Hdef.
   destruct (line_stage_ok dbg l ladv Hok Hl) as (special & use & pre & E1 & H13 & Hsl & Hsp255 & Huse & Fpre & Rpre).
-  destruct (op_stage_ok dbg l special use oadv Hok H13 Hsl Hov)
+  destruct (op_stage_ok dbg l special use oadv Hok H13 Hsl)
     as (special' & use' & mid & k & E2 & Hs' & Hk & H255 & Huse' & Fmid & Rmid).
   unfold advance_insns. rewrite (debug_asserts_ok dbg l Hok). cbn [bind].
   rewrite E1. cbn [bind]. rewrite E2. cbn [bind].
@@ -338,24 +346,6 @@ Proof.
     cbn [map denote run step exec app]. rewrite N.sub_0_r.
     replace (ladv - (le_line_base l + (Z.of_N special - 13)))%Z with ladv by lia.
     reflexivity.
-Qed.
-
-(* ------------------------------------------------------------------ outside the hypotheses: refutations *)
-
-(* the operation advance outside the writer's arithmetic range: op_advance * line_range overflows u64.
-   Debug builds panic; release builds wrap and fold a wrong advance into a special opcode. *)
-Definition lenc_100 : lenc := mkLenc 1 1 true (-1) 100.
-Definition big_oadv : N := 184467440737095517.   (* 2^64 / 100 + 1 *)
-Lemma advance_refuted_mul_overflow :
-  enc_ok lenc_100 /\
-  advance_insns true lenc_100 0 big_oadv = Panic /\
-  advance_insns false lenc_100 0 big_oadv = Ok [ISpecial 98] /\
-  fst (run (params_of lenc_100) (map (denote 4) [ISpecial 98]) (init_regs (params_of lenc_100)))
-    <> [op_adv (params_of lenc_100) (Z.of_N big_oadv) (init_regs (params_of lenc_100))].
-Proof.
-  split; [unfold enc_ok, lenc_100; cbn; lia|].
-  split; [vm_compute; reflexivity|]. split; [vm_compute; reflexivity|].
-  vm_compute. intros H. discriminate H.
 Qed.
 
 (* ------------------------------------------------------------------ LineProgram::new *)
